@@ -1,12 +1,25 @@
 /-
 Contracts.Pipeline — property-level theorems about the composition
-`tucan m := serialize_molecule (canonicalize_molecule m)`.
+`tucan m := serialize_molecule (canonicalize_molecule m)` (`Pipeline.tucan`).
 
-1. `tucanSpec_same`     — the emitted text is a function of the abstract labelled graph
-2. `C15_pipeline_total` — the pipeline returns normally for every molecule with at least one atom
-3. `C01_main`           — two descriptions of one molecule give byte-identical strings
-   `C06_graph_half`     — attributes outside the identity attributes do not influence the string
-4. `C05_pipeline`       — the emitted string is a sentence of the grammar and obeys the layout rules
+0. `Agree keys a b`      — same labels, same bonds, same value of the attributes `keys` at every label
+                           (iteration orders, other attributes, bond data unconstrained); `RenamedOn`
+1. `tucanSpec_agree_sorted`, `tucanSpec_same`
+                         — the emitted text is a function of the abstract labelled graph
+   `assign_final_labels_agree`
+                         — `_assign_final_labels` reads only labels, bonds and `partition` (variant of
+                           `FinalLabels.assign_final_labels_order_independent` under `Agree ["partition"]`)
+2. `serialize_molecule_ok`, `pipeline_run`, `C15_pipeline_total`, `C15_tucan_total`
+                         — the pipeline returns normally for every molecule with at least one atom
+                           (fuel bound: `FinalLabels.fuelBound m` = atoms + sum of degrees + 2)
+3. `serialize_molecule_agree`, `C01_main`, `C01_tucan`
+                         — two descriptions of one molecule give byte-identical strings
+   `C06_graph_half`      — attributes outside the identity attributes do not influence the string
+4. `C05_pipeline`        — the emitted string is a sentence of the grammar and obeys the layout rules
+
+Hypotheses: C15 / C05 need `invariant_code` and `atomic_number` on every atom; `element_symbol` need not be
+carried for the pipeline to return (`get_node_attributes` skips atoms without it). C01 inherits the correction
+of C04 (`CodeDetermines`, see Contracts/Canonicalize.lean).
 -/
 import Contracts.Canonicalize
 import Contracts.FinalLabels
@@ -142,6 +155,10 @@ theorem sumFormulaSpec_congr {x y : Graph} (h : (symbolsOf x).Perm (symbolsOf y)
   congr 2
   funext s
   rw [h.count_eq]
+
+theorem sumFormulaSpec_congr' {x y : Graph} (h : (symbolsOf x).Perm (symbolsOf y)) :
+    sumFormulaSpec x = ((hillOrder (symbolsOf y)).map (fun s => renderElem s ((symbolsOf y).count s))).flatten :=
+  sumFormulaSpec_congr h
 
 /-- the sorted normalised bond list is a function of the bond *set* -/
 theorem bondList_agree (h : Agree keys a b) (ha : a.WF) (hb : b.WF) : Layout.bondList a = Layout.bondList b :=
@@ -498,6 +515,8 @@ theorem length_le_fuelBound (m : Graph) : m.nodeList.length + 1 ≤ fuelBound m 
 /-- the attributes the pipeline never rewrites: everything but `partition` and the scratch flag `explored` -/
 def Kept (k : String) : Prop := k ≠ "partition" ∧ k ≠ "explored"
 
+instance : DecidablePred Kept := fun k => by unfold Kept; infer_instance
+
 /-- everything known about one successful run of the pipeline on `m`: `c` is the canonicalized molecule, `s`
 the emitted string, `ms` the graph whose text `s` is -/
 structure Run (env : DepEnv) (fuel₁ fuel₂ : Nat) (m c ms : Graph) (s : Str) : Prop where
@@ -563,4 +582,162 @@ theorem C15_tucan_total {env : DepEnv} (hs : env.SetLawful) (hb : BlissLawful en
     (le_trans (length_le_fuelBound m) hf) hf
   exact ⟨s, tucan_eq_of_run R⟩
 
+/-! ## 6. C01: two descriptions of one molecule give byte-identical strings -/
+
+theorem RenamedOn.of_isIsoOn {key : String} {π : Int → Int} {g h : Graph} (r : IsIsoOn key π g h) :
+    RenamedOn (fun k => k = key) π g h :=
+  ⟨r.inj, r.nodes, fun k hk n hn => by subst hk; exact r.attr n hn, r.nbrs⟩
+
+/-- **C01.** `g`, `h`: two descriptions of one molecule that differ only in the numbering of the atoms (`π`), in
+the order in which atoms and bonds are listed (node / adjacency / attribute iteration orders are unconstrained)
+and in the direction of bond endpoints (adjacency is symmetric in a well-formed graph); non-identity attributes
+and bond data may differ as well. Hypotheses as in `C04_main` (`h` is `g` renamed by `π`, which carries
+`invariant_code` and the identity attributes; atoms with equal invariant code have equal identity attributes)
+plus: every atom carries `atomic_number`. The two runs may use different `set` iteration orders (hash seeds)
+and different (sufficient) amounts of fuel. Then both pipeline runs return normally and the two strings are
+equal. Symmetric molecules, multi-component molecules and isotope / radical labels are covered: nothing is
+assumed about connectivity or automorphisms, and `mass` / `rad` are identity attributes. -/
+theorem C01_main {env₁ env₂ : DepEnv} (hs₁ : env₁.SetLawful) (hs₂ : env₂.SetLawful) (hb : BlissLawful env₁)
+    (hcp : env₂.canonicalPermutation = env₁.canonicalPermutation)
+    (hpv : env₂.permuteVertices = env₁.permuteVertices)
+    {g h : Graph} {π : Int → Int} (hg : g.WF) (hh : h.WF) (hne : g.nodeList ≠ [])
+    (cg : Carries g "invariant_code") (ag : Carries g "atomic_number")
+    (hiso : IsIsoOn "invariant_code" π g h)
+    (hcarry : ∀ key ∈ identityKeys, ∀ n ∈ g.nodeList, h.attr (π n) key = g.attr n key)
+    (hdet : ∀ key ∈ identityKeys, CodeDetermines g key)
+    (fuel₁ fuel₁' fuel₂ fuel₂' : Nat)
+    (hf₁ : fuel₁ ≥ g.nodeList.length + 1) (hf₁' : fuel₁' ≥ fuelBound g)
+    (hf₂ : fuel₂ ≥ h.nodeList.length + 1) (hf₂' : fuel₂' ≥ fuelBound h) :
+    ∃ rg rh s, Tucan.canonicalization.canonicalize_molecule env₁ fuel₁ g = .ok rg ∧
+      Tucan.canonicalization.canonicalize_molecule env₂ fuel₂ h = .ok rh ∧
+      Tucan.serialization.serialize_molecule env₁ fuel₁' rg = .ok (s, clearExplored rg) ∧
+      Tucan.serialization.serialize_molecule env₂ fuel₂' rh = .ok (s, clearExplored rh) := by
+  obtain ⟨rg, rh, e₁, e₂, wg, wh, ng, nh, hattr, hnb⟩ :=
+    Canonicalize.C04_main hs₁ hs₂ hb hcp hpv hg hh hne cg hiso hcarry hdet fuel₁ fuel₂ hf₁ hf₂
+  obtain ⟨c, ρ, hcan, -, -, cp, rel⟩ := canonicalize_facts hs₁ hb hg hne cg fuel₁ hf₁
+  obtain rfl : c = rg := Except.ok.inj (hcan.symm.trans e₁)
+  have r₀ : RenamedOn (fun k => k ≠ "partition") ρ g c := RenamedOn.of_relabelExcept rel
+  have hag : Agree (printKeys ++ ["partition"]) c rh := by
+    refine ⟨ng.trans nh.symm, ?_, ?_⟩
+    · intro k hk n
+      apply hattr n k
+      simp only [printKeys, identityKeys, List.mem_append, List.mem_cons, List.not_mem_nil, or_false] at hk ⊢
+      tauto
+    · intro n
+      exact (List.perm_ext_iff_of_nodup (wg.nodup_nbrs n) (wh.nodup_nbrs n)).2 (fun j => hnb j n)
+  have fb₁ : fuelBound c = fuelBound g := r₀.fuelBound_eq
+  have fb₂ : fuelBound rh = fuelBound h := by
+    rw [← fuelBound_agree hag, fb₁, (RenamedOn.of_isIsoOn hiso).fuelBound_eq]
+  obtain ⟨s, s₁, s₂⟩ := serialize_molecule_agree hs₁ hs₂ wg wh hag cp (r₀.carries (by decide) ag)
+    fuel₁' fuel₂' (by rw [fb₁]; exact hf₁') (by rw [fb₂]; exact hf₂')
+  exact ⟨c, rh, s, e₁, e₂, s₁, s₂⟩
+
+/-- C01 for the composed function: the same string, not merely equivalent strings -/
+theorem C01_tucan {env₁ env₂ : DepEnv} (hs₁ : env₁.SetLawful) (hs₂ : env₂.SetLawful) (hb : BlissLawful env₁)
+    (hcp : env₂.canonicalPermutation = env₁.canonicalPermutation)
+    (hpv : env₂.permuteVertices = env₁.permuteVertices)
+    {g h : Graph} {π : Int → Int} (hg : g.WF) (hh : h.WF) (hne : g.nodeList ≠ [])
+    (cg : Carries g "invariant_code") (ag : Carries g "atomic_number")
+    (hiso : IsIsoOn "invariant_code" π g h)
+    (hcarry : ∀ key ∈ identityKeys, ∀ n ∈ g.nodeList, h.attr (π n) key = g.attr n key)
+    (hdet : ∀ key ∈ identityKeys, CodeDetermines g key)
+    (fuel₁ fuel₂ : Nat) (hf₁ : fuel₁ ≥ fuelBound g) (hf₂ : fuel₂ ≥ fuelBound h) :
+    ∃ s, tucan env₁ fuel₁ g = .ok s ∧ tucan env₂ fuel₂ h = .ok s := by
+  obtain ⟨rg, rh, s, e₁, e₂, s₁, s₂⟩ := C01_main hs₁ hs₂ hb hcp hpv hg hh hne cg ag hiso hcarry hdet
+    fuel₁ fuel₁ fuel₂ fuel₂ (le_trans (length_le_fuelBound g) hf₁) hf₁ (le_trans (length_le_fuelBound h) hf₂) hf₂
+  refine ⟨s, ?_, ?_⟩ <;> unfold tucan
+  · simp only [e₁, s₁, ok_bind, pure_eq_ok]
+  · simp only [e₂, s₂, ok_bind, pure_eq_ok]
+
+/-- **C06, graph half.** The string does not depend on charges, coordinates, bond data or any node attribute
+outside `element_symbol`, `atomic_number`, `mass`, `rad`, `invariant_code`: two well-formed graphs with the same
+labels and bonds that agree on these five attributes (everything else — other attributes, bond data, iteration
+orders — arbitrary) give the same string. -/
+theorem C06_graph_half {env₁ env₂ : DepEnv} (hs₁ : env₁.SetLawful) (hs₂ : env₂.SetLawful) (hb : BlissLawful env₁)
+    (hcp : env₂.canonicalPermutation = env₁.canonicalPermutation)
+    (hpv : env₂.permuteVertices = env₁.permuteVertices)
+    {g h : Graph} (hg : g.WF) (hh : h.WF) (hne : g.nodeList ≠ [])
+    (cg : Carries g "invariant_code") (ag : Carries g "atomic_number")
+    (hnodes : h.nodeList.Perm g.nodeList)
+    (hattr : ∀ key ∈ identityKeys ++ ["invariant_code"], ∀ n ∈ g.nodeList, h.attr n key = g.attr n key)
+    (hnbrs : ∀ n ∈ g.nodeList, (h.nbrs n).Perm (g.nbrs n))
+    (hdet : ∀ key ∈ identityKeys, CodeDetermines g key)
+    (fuel₁ fuel₂ : Nat) (hf₁ : fuel₁ ≥ fuelBound g) (hf₂ : fuel₂ ≥ fuelBound h) :
+    ∃ s, tucan env₁ fuel₁ g = .ok s ∧ tucan env₂ fuel₂ h = .ok s := by
+  have hiso : IsIsoOn "invariant_code" id g h :=
+    ⟨fun _ _ _ _ e => e, by rw [List.map_id]; exact hnodes,
+      fun n hn => hattr "invariant_code" (by simp) n hn, fun n hn => by rw [List.map_id]; exact hnbrs n hn⟩
+  exact C01_tucan hs₁ hs₂ hb hcp hpv hg hh hne cg ag hiso
+    (fun key hk n hn => hattr key (List.mem_append_left _ hk) n hn) hdet fuel₁ fuel₂ hf₁ hf₂
+
+/-! ## 7. C05: the emitted string is a sentence of the grammar and obeys the layout rules -/
+
+/-- **C05** for the pipeline. Hypotheses of `C15_pipeline_total` plus: element symbols are keys of
+`ELEMENT_ATTRS`, stored `mass` / `rad` values are positive integers. Then the pipeline returns a string `s`
+that is a sentence of the published grammar; `s` is the text (`tucanSpec`) of a well-formed graph `ms` with
+labels `0 … n-1` that is the input under a one-to-one renaming keeping every attribute but `partition` /
+`explored`; labels run in blocks of non-decreasing atomic number (`Run.sorted`); the sum formula lists exactly
+the element counts of the input; the attribute blocks belong to exactly the atoms with a mass or rad entry, in
+strictly ascending index order; and if the input has no self-loops, neither has `ms`, every printed tuple `(a-b)`
+has `1 ≤ a < b ≤ n`, the tuples are strictly ascending and are exactly the bonds, each once. -/
+theorem C05_pipeline {env : DepEnv} (hs : env.SetLawful) (hb : BlissLawful env) {m : Graph}
+    (hm : m.WF) (hne : m.nodeList ≠ []) (hc : Carries m "invariant_code") (ha : Carries m "atomic_number")
+    (hsym : ∀ s ∈ symbolsOf m, s ∈ Tucan.Consts.ELEMENT_ATTRS.keys)
+    (hmass : ∀ a ∈ m.nodeList, ∀ v, m.attr a "mass" = some v → Layout.Grammar.PosInt v)
+    (hrad : ∀ a ∈ m.nodeList, ∀ v, m.attr a "rad" = some v → Layout.Grammar.PosInt v)
+    (fuel₁ fuel₂ : Nat) (hf₁ : fuel₁ ≥ m.nodeList.length + 1) (hf₂ : fuel₂ ≥ fuelBound m) :
+    ∃ c ms s, Run env fuel₁ fuel₂ m c ms s ∧ Layout.Grammar.tucan s ∧
+      -- sum formula
+      (symbolsOf ms).Perm (symbolsOf m) ∧
+      sumFormulaSpec ms = ((hillOrder (symbolsOf m)).map (fun x => renderElem x ((symbolsOf m).count x))).flatten ∧
+      -- attribute blocks
+      ((Layout.labelled ms).Pairwise (fun p q => p.1 < q.1) ∧
+        (∀ p, p ∈ Layout.labelled ms ↔ ms.node.get? p.1 = some p.2 ∧ Layout.hasProps p.2 = true) ∧
+        (∀ p ∈ Layout.labelled ms, 1 ≤ p.1 + 1 ∧ p.1 + 1 ≤ m.numberOfNodes)) ∧
+      -- bond tuples
+      (m.Loopless → ms.Loopless ∧
+        (∀ e ∈ Layout.bondList ms, 1 ≤ e.1 + 1 ∧ e.1 + 1 < e.2 + 1 ∧ e.2 + 1 ≤ m.numberOfNodes) ∧
+        (Layout.bondList ms).Pairwise (fun a b => a.1 < b.1 ∨ (a.1 = b.1 ∧ a.2 < b.2)) ∧
+        (∀ e ∈ Layout.bondList ms, e.2 ∈ ms.nbrs e.1) ∧
+        (∀ u v, v ∈ ms.nbrs u → (Layout.bondList ms).count (min u v, max u v) = 1)) := by
+  obtain ⟨c, ms, s, R⟩ := pipeline_run hs hb hm hne hc ha fuel₁ fuel₂ hf₁ hf₂
+  obtain ⟨σ, r⟩ := R.renamed
+  have hperm : (symbolsOf ms).Perm (symbolsOf m) := r.symbolsOf_perm (by decide) hm R.wf
+  have hattr : ∀ key, Kept key → ∀ i ∈ ms.nodeList, ∀ v, ms.attr i key = some v →
+      ∃ x ∈ m.nodeList, m.attr x key = some v := by
+    intro key hk i hi v hv
+    obtain ⟨x, hx, rfl⟩ := List.mem_map.1 (r.nodes.mem_iff.1 hi)
+    exact ⟨x, hx, by rw [← r.attr key hk x hx]; exact hv⟩
+  refine ⟨c, ms, s, R, ?_, hperm, ?_, Layout.blocks_layout R.wf R.nodes, ?_⟩
+  · rw [R.text]
+    apply Layout.Grammar.tucanSpec_in_grammar R.wf
+    · intro a ha'
+      exact ((Layout.mem_range_iff _ a).1 (R.nodes.mem_iff.1 ha')).1
+    · intro x hx
+      exact hsym x (hperm.mem_iff.1 hx)
+    · intro i hi v hv
+      obtain ⟨x, hx, e⟩ := hattr "mass" (by decide) i hi v hv
+      exact hmass x hx v e
+    · intro i hi v hv
+      obtain ⟨x, hx, e⟩ := hattr "rad" (by decide) i hi v hv
+      exact hrad x hx v e
+  · exact sumFormulaSpec_congr' hperm
+  · intro hl
+    have hl' : ms.Loopless := r.loopless hm R.wf hl
+    exact ⟨hl', Layout.tuples_layout R.wf hl' R.nodes⟩
+
 end Contracts.Pipeline
+
+/-! ## axioms -/
+#print axioms Contracts.Pipeline.tucanSpec_agree_sorted
+#print axioms Contracts.Pipeline.tucanSpec_same
+#print axioms Contracts.Pipeline.assign_final_labels_agree
+#print axioms Contracts.Pipeline.serialize_molecule_ok
+#print axioms Contracts.Pipeline.serialize_molecule_agree
+#print axioms Contracts.Pipeline.pipeline_run
+#print axioms Contracts.Pipeline.C15_pipeline_total
+#print axioms Contracts.Pipeline.C15_tucan_total
+#print axioms Contracts.Pipeline.C01_main
+#print axioms Contracts.Pipeline.C01_tucan
+#print axioms Contracts.Pipeline.C06_graph_half
+#print axioms Contracts.Pipeline.C05_pipeline
